@@ -15,9 +15,17 @@ list, blanks anywhere); "the regex grammar" is `InGrammar` (Proofs/RxGrammar.lea
 "can be compiled" is `fromRegex … = .ok N` — the model of `NFA.from_regex` including the NFA
 constructor's validation.  The comparison helpers call `NFA.__eq__` and `NFA.union`, which belong
 to C09 / C08: they are parameters here, constrained by exactly the contracts those properties
-state.
+state (`Props/C11b.lean` instantiates them with the library's own models).
+
+Strings that are NOT spellings of documented tokens are covered too (section "every string"):
+whatever the characters, `regex.validate` and `NFA.from_regex` agree — both succeed, or both
+raise the same exception, which is `InvalidRegexError` or `LexerError` unless some brace group
+`{g1,g2}` of the string has a non-empty bound text that `int()` rejects (then `ValueError`; the
+property puts non-numeric bounds outside its domain).  In particular numeric but negative or
+ill-ordered bounds (`a{2,1}`, `a{-1,2}`) are reported with `InvalidRegexError`.
 -/
 import AutomataVerif.Props.C10
+import AutomataVerif.Proofs.RxLexTotal
 
 namespace AV.Props.C11
 open AV AV.Rx
@@ -105,6 +113,53 @@ theorem C11_validate_iff_compiles (syms : List α) {ts : List (Tok α)}
 
 end tokens
 
+/-- After a successful lexer run `NFA.from_regex` = reserved-character check (explicit alphabet
+only), the token pipeline of `parse_regex`, the NFA constructor. -/
+theorem fromRegex_some_eq {s : List Char} {ts : List (Tok Char)} (hlex : lex s = .ok ts)
+    (syms : List Char) (hres : ∀ c ∈ syms, isReserved c = false) :
+    fromRegex s (some syms) = compileTokens syms ts := by
+  have hany : syms.any isReserved = false := by
+    rw [List.any_eq_false]
+    intro c hc
+    simp [hres c hc]
+  unfold fromRegex parseRegex compileTokens
+  by_cases hs : s.isEmpty = true
+  · have : s = [] := by cases s with
+      | nil => rfl
+      | cons _ _ => cases hs
+    subst this
+    have : lex ([] : List Char) = .ok [] := rfl
+    rw [this] at hlex
+    cases hlex
+    simp only [hany, Bool.false_eq_true, if_false, List.isEmpty_nil, if_true, parseTokens]
+    rfl
+  · simp only [hany, hs, Bool.false_eq_true, if_false, hlex]
+    cases parseTokens syms ts with
+    | error x => rfl
+    | ok b =>
+      simp only
+      cases (b.toNFA syms).validate <;> rfl
+
+theorem fromRegex_none_eq {s : List Char} {ts : List (Tok Char)} (hlex : lex s = .ok ts) :
+    fromRegex s none = compileTokens (defaultSyms s) ts := by
+  unfold fromRegex parseRegex compileTokens
+  by_cases hs : s.isEmpty = true
+  · have : s = [] := by cases s with
+      | nil => rfl
+      | cons _ _ => cases hs
+    subst this
+    have : lex ([] : List Char) = .ok [] := rfl
+    rw [this] at hlex
+    cases hlex
+    simp only [List.isEmpty_nil, if_true, parseTokens]
+    rfl
+  · simp only [hs, Bool.false_eq_true, if_false, hlex]
+    cases parseTokens (defaultSyms s) ts with
+    | error x => rfl
+    | ok b =>
+      simp only
+      cases (b.toNFA (defaultSyms s)).validate <;> rfl
+
 /-- **String level**, default alphabet: for a string that spells a sequence of documented tokens
 (blanks anywhere), `regex.validate(s)` succeeds exactly when `NFA.from_regex(s)` succeeds; when
 it fails both fail with `InvalidRegexError`. -/
@@ -119,30 +174,147 @@ theorem C11_validate_iff_from_regex {s : List Char} {ts : List (Tok Char)} (hr :
   have hsym : ∀ a, Tok.str [a] ∈ ts → a ∈ defaultSyms s := fun a ha =>
     mem_defaultSyms (renders_str_mem hr a ha).1 (renders_str_mem hr a ha).2
   obtain ⟨h1, h2⟩ := C11_validate_iff_compiles (defaultSyms s) (renders_lexTok hr) hsym
-  -- `from_regex` = reserved-check (none for the default alphabet), `parse_regex`, constructor
-  have hfrom : fromRegex s none = compileTokens (defaultSyms s) ts := by
-    unfold fromRegex parseRegex compileTokens
-    by_cases hs : s.isEmpty = true
-    · have : s = [] := by cases s with
-        | nil => rfl
-        | cons _ _ => cases hs
-      subst this
-      have : lex ([] : List Char) = .ok [] := rfl
-      rw [this] at hlex
-      cases hlex
-      simp only [List.isEmpty_nil, if_true, parseTokens]
-      rfl
-    · simp only [hs, Bool.false_eq_true, if_false, hlex]
-      cases parseTokens (defaultSyms s) ts with
-      | error x => rfl
-      | ok b =>
-        simp only
-        cases (b.toNFA (defaultSyms s)).validate <;> rfl
-  rw [hval, hfrom]
+  rw [hval, fromRegex_none_eq hlex]
   refine ⟨h1, fun hbad => ⟨?_, h2 hbad⟩⟩
   rcases validate_error_kind ts with h | h
   · exact absurd h hbad
   · exact h
+
+/-- **String level, explicit alphabet** `input_symbols=Σ` (no reserved character, containing the
+symbols of the string): for a string that spells a sequence of documented tokens,
+`regex.validate(s)` succeeds exactly when `NFA.from_regex(s, input_symbols=Σ)` succeeds; when it
+fails both fail with `InvalidRegexError`. -/
+theorem C11_validate_iff_from_regex_explicit {s : List Char} {ts : List (Tok Char)}
+    (hr : Renders ts s) (syms : List Char) (hres : ∀ c ∈ syms, isReserved c = false)
+    (hsym : ∀ a, Tok.str [a] ∈ ts → a ∈ syms) :
+    (Rx.validate s = .ok () ↔ ∃ N, fromRegex s (some syms) = .ok N) ∧
+    (Rx.validate s ≠ .ok () →
+      Rx.validate s = .error (.lib .invalidRegexError) ∧
+      fromRegex s (some syms) = .error (.lib .invalidRegexError)) := by
+  have hlex := lex_renders hr
+  have hval : Rx.validate s = validateTokens ts := by
+    unfold Rx.validate; rw [hlex]
+  obtain ⟨h1, h2⟩ := C11_validate_iff_compiles syms (renders_lexTok hr) hsym
+  rw [hval, fromRegex_some_eq hlex syms hres]
+  refine ⟨h1, fun hbad => ⟨?_, h2 hbad⟩⟩
+  rcases validate_error_kind ts with h | h
+  · exact absurd h hbad
+  · exact h
+
+/-! ## every string (also those that do not lex, or are not spellings of documented tokens) -/
+
+open LexTotal in
+/-- **Lexing failures are shared**: when `lexer.lex(s)` raises, `regex.validate(s)` and
+`NFA.from_regex(s, …)` (default alphabet, or any explicit alphabet that passes the
+reserved-character check) raise the same exception. -/
+theorem C11_lex_error_agree {s : List Char} {e : Exn} (h : lex s = .error e) :
+    Rx.validate s = .error e ∧ fromRegex s none = .error e ∧
+    ∀ syms : List Char, (∀ c ∈ syms, isReserved c = false) →
+      fromRegex s (some syms) = .error e := by
+  have hs : s.isEmpty = false := by
+    cases s with
+    | nil => have : lex ([] : List Char) = .ok [] := rfl
+             rw [this] at h; cases h
+    | cons _ _ => rfl
+  refine ⟨?_, ?_, ?_⟩
+  · unfold Rx.validate; rw [h]
+  · unfold fromRegex parseRegex
+    simp only [hs, Bool.false_eq_true, if_false, h]
+  · intro syms hres
+    have hany : syms.any isReserved = false := by
+      rw [List.any_eq_false]
+      intro c hc
+      simp [hres c hc]
+    unfold fromRegex parseRegex
+    simp only [hany, hs, Bool.false_eq_true, if_false, h]
+
+open LexTotal in
+/-- **Kinds of lexing failures**, for every string: `lexer.lex(s)` returns lexer tokens, or
+raises `LexerError` (a white-space character other than a blank), or `InvalidRegexError`
+(a brace group with numeric bounds that are negative or ill-ordered: `a{-1,2}`, `a{2,1}`), or
+`ValueError` — the last one only if some brace group `{g1,g2}` of `s` has a non-empty bound text
+that `int()` rejects (`HasBadBound`: non-numeric bounds, outside the property's domain). -/
+theorem C11_lex_error_kind (s : List Char) :
+    (∃ ts, lex s = .ok ts ∧ ∀ t ∈ ts, LexTok t) ∨
+    lex s = .error (.lib .lexerError) ∨
+    lex s = .error (.lib .invalidRegexError) ∨
+    (lex s = .error (.py .valueError) ∧ HasBadBound s) := by
+  rcases lex_error_kind s with ⟨ts, h⟩ | h | h | h
+  · exact Or.inl ⟨ts, h, lex_ok_lexTok h⟩
+  · exact Or.inr (Or.inl h)
+  · exact Or.inr (Or.inr (Or.inl h))
+  · exact Or.inr (Or.inr (Or.inr h))
+
+open LexTotal in
+/-- **Validator and compiler agree on EVERY string** (explicit alphabet `Σ` without reserved
+characters that contains the symbol tokens the lexer produces, if it produces any): whatever the
+characters of `s` — lone braces, odd bounds, white space included —
+`regex.validate(s)` succeeds exactly when `NFA.from_regex(s, input_symbols=Σ)` succeeds, and
+otherwise both raise the SAME exception, which is `InvalidRegexError` or `LexerError` (regex error
+types, `C11_error_classes`) — or `ValueError`, but only if some brace group has a non-numeric
+bound (`HasBadBound s`). -/
+theorem C11_validate_from_regex_any (s : List Char) (syms : List Char)
+    (hres : ∀ c ∈ syms, isReserved c = false)
+    (hsym : ∀ ts, lex s = .ok ts → ∀ a, Tok.str [a] ∈ ts → a ∈ syms) :
+    (Rx.validate s = .ok () ↔ ∃ N, fromRegex s (some syms) = .ok N) ∧
+    (Rx.validate s ≠ .ok () → ∃ e, Rx.validate s = .error e ∧ fromRegex s (some syms) = .error e ∧
+      (e = .lib .invalidRegexError ∨ e = .lib .lexerError ∨
+        (e = .py .valueError ∧ HasBadBound s))) := by
+  cases hlex : lex s with
+  | error e =>
+    obtain ⟨hv, _, hf⟩ := C11_lex_error_agree hlex
+    rw [hv, hf syms hres]
+    refine ⟨⟨fun h => (by cases h), fun ⟨N, h⟩ => (by cases h)⟩, fun _ => ⟨e, rfl, rfl, ?_⟩⟩
+    rcases lexAux_error_kind _ _ e hlex with h | h | h
+    · exact Or.inr (Or.inl h)
+    · exact Or.inl h
+    · exact Or.inr (Or.inr h)
+  | ok ts =>
+    have hval : Rx.validate s = validateTokens ts := by
+      unfold Rx.validate; rw [hlex]
+    obtain ⟨h1, h2⟩ := C11_validate_iff_compiles syms (lex_ok_lexTok hlex) (hsym ts hlex)
+    rw [hval, fromRegex_some_eq hlex syms hres]
+    refine ⟨h1, fun hbad => ⟨_, ?_, h2 hbad, Or.inl rfl⟩⟩
+    rcases validate_error_kind ts with h | h
+    · exact absurd h hbad
+    · exact h
+
+open LexTotal in
+/-- The same with the default alphabet (`input_symbols=None`), for every string whose lexer run
+yields no lone-brace symbol (`{` / `}` are reserved, hence never in the default alphabet: for
+`a{` the validator answers ok and `from_regex` raises `InvalidSymbolError`; outside the documented
+syntax). -/
+theorem C11_validate_from_regex_any_default (s : List Char)
+    (hbr : ∀ ts, lex s = .ok ts → Tok.str ['{'] ∉ ts ∧ Tok.str ['}'] ∉ ts) :
+    (Rx.validate s = .ok () ↔ ∃ N, fromRegex s none = .ok N) ∧
+    (Rx.validate s ≠ .ok () → ∃ e, Rx.validate s = .error e ∧ fromRegex s none = .error e ∧
+      (e = .lib .invalidRegexError ∨ e = .lib .lexerError ∨
+        (e = .py .valueError ∧ HasBadBound s))) := by
+  cases hlex : lex s with
+  | error e =>
+    obtain ⟨hv, hf, _⟩ := C11_lex_error_agree hlex
+    rw [hv, hf]
+    refine ⟨⟨fun h => (by cases h), fun ⟨N, h⟩ => (by cases h)⟩, fun _ => ⟨e, rfl, rfl, ?_⟩⟩
+    rcases lexAux_error_kind _ _ e hlex with h | h | h
+    · exact Or.inr (Or.inl h)
+    · exact Or.inl h
+    · exact Or.inr (Or.inr h)
+  | ok ts =>
+    have hval : Rx.validate s = validateTokens ts := by
+      unfold Rx.validate; rw [hlex]
+    have hsym : ∀ a, Tok.str [a] ∈ ts → a ∈ defaultSyms s := by
+      intro a ha
+      obtain ⟨hm, _, hr⟩ := lex_ok_str hlex a ha
+      rcases hr with hr | rfl | rfl
+      · exact mem_defaultSyms hm hr
+      · exact absurd ha (hbr ts hlex).1
+      · exact absurd ha (hbr ts hlex).2
+    obtain ⟨h1, h2⟩ := C11_validate_iff_compiles (defaultSyms s) (lex_ok_lexTok hlex) hsym
+    rw [hval, fromRegex_none_eq hlex]
+    refine ⟨h1, fun hbad => ⟨_, ?_, h2 hbad, Or.inl rfl⟩⟩
+    rcases validate_error_kind ts with h | h
+    · exact absurd h hbad
+    · exact h
 
 /-! ## comparison helpers -/
 
@@ -238,7 +410,40 @@ example : Rx.validate " ".toList = .ok () ∧ (fromRegex " ".toList none).toOpti
   decide
 example : Renders [.str ['a'], .quant 1 (some 2)] "a {1,2} ".toList :=
   .tok (.sym 'a' ⟨by decide, by decide⟩) (.blank ' ' (by decide)
-    (.tok (.quant ['1'] ['2'] 1 (some 2) (Or.inr ⟨⟨by simp, by decide⟩, by decide⟩)
-      (Or.inr ⟨⟨by simp, by decide⟩, by decide, by decide⟩)) (.blank ' ' (by decide) .nil)))
+    (.tok (.quant ['1'] ['2'] 1 (some 2)
+      (Or.inr ⟨['1'], .of_digits ⟨by simp, by decide⟩, by decide⟩)
+      (Or.inr ⟨['2'], .of_digits ⟨by simp, by decide⟩, by decide, by decide⟩))
+      (.blank ' ' (by decide) .nil)))
+
+/-- Strings that do not lex: numeric but ill-ordered / negative bounds are `InvalidRegexError`
+(validator and compiler alike), a non-numeric bound is `ValueError`, a newline is `LexerError`. -/
+example : (lex "a{2,1}".toList, Rx.validate "a{-1,2}".toList,
+    (fromRegex "a{2,1}".toList (some ['a'])).toOption.isSome) =
+    (.error (.lib .invalidRegexError), .error (.lib .invalidRegexError), false) := by decide
+example : (lex "a{x,1}".toList, lex "a\nb".toList) =
+    (.error (.py .valueError), .error (.lib .lexerError)) := by decide
+example : LexTotal.HasBadBound "a{x,1}".toList :=
+  ⟨['a'], "{x,1}".toList, ['x'], ['1'], rfl, by decide, Or.inl ⟨by simp, by decide⟩⟩
+
+/-- The hypotheses of `C11_validate_from_regex_any` are met by a string outside the grammar:
+`(a|b` over `Σ = {a, b}` — validator and compiler both fail with `InvalidRegexError`.  (For a
+string that does not lex, such as `a{2,1}` above, the hypothesis on symbol tokens is void.) -/
+example : (∀ c ∈ ['a', 'b'], isReserved c = false) ∧
+    (∀ ts, lex "(a|b".toList = .ok ts → ∀ a, Tok.str [a] ∈ ts → a ∈ ['a', 'b']) ∧
+    Rx.validate "(a|b".toList = .error (.lib .invalidRegexError) ∧
+    (fromRegex "(a|b".toList (some ['a', 'b'])).toOption.isSome = false := by
+  refine ⟨by decide, ?_, by decide, by decide⟩
+  intro ts h
+  have : lex "(a|b".toList = .ok [.lparen, .str ['a'], .union, .str ['b']] := by decide
+  rw [this] at h
+  cases h
+  intro a ha
+  simp at ha
+  rcases ha with rfl | rfl <;> simp
+
+/-- … and the side condition of the default-alphabet version: `a|b*` yields no lone-brace
+symbol, `a{` does (then validate is ok while `from_regex` raises `InvalidSymbolError`). -/
+example : lex "a{".toList = .ok [.str ['a'], .str ['{']] ∧ Rx.validate "a{".toList = .ok () ∧
+    (fromRegex "a{".toList none).map (fun _ => ()) = .error (.lib .invalidSymbolError) := by decide
 
 end AV.Props.C11
